@@ -331,6 +331,184 @@ fn rewrite_fn(name: &str, sig: &mut Signature, block: &mut Block, unit: &Unit, l
     rw.finish_fn(sig, block);
 }
 
+/// R35: a call of a free function of the same source file that no unit selects (a helper that was split off a selected function)
+/// is replaced by the helper's body with its parameters bound to the arguments: `h(a, b)` -> `{ let __h0 = a; let __h1 = b; { let p = __h0; let q = __h1; BODY } }`.
+/// Only helpers without `return`, `?`, `self` and with plain identifier parameters are inlined; anything else is left alone.
+pub fn inline_helpers(item: &mut Item, helpers: &std::collections::HashMap<String, ItemFn>, assoc: &std::collections::HashMap<(String, String), ImplItemFn>, log: &mut Log) {
+    struct Inl<'h> {
+        helpers: &'h std::collections::HashMap<String, ItemFn>,
+        assoc: &'h std::collections::HashMap<(String, String), ImplItemFn>,
+        self_ty: Option<String>,
+        notes: Vec<String>,
+        k: usize,
+        depth: usize,
+    }
+    fn eligible_sig(sig: &Signature, block: &Block, receiver_ok: bool) -> bool {
+        struct Bad(bool);
+        impl<'ast> syn::visit::Visit<'ast> for Bad {
+            fn visit_expr_return(&mut self, _: &'ast ExprReturn) {
+                self.0 = true;
+            }
+            fn visit_expr_try(&mut self, _: &'ast ExprTry) {
+                self.0 = true;
+            }
+            fn visit_expr_closure(&mut self, _: &'ast ExprClosure) {}
+        }
+        if sig.asyncness.is_some() || sig.unsafety.is_some() || !sig.generics.params.is_empty() {
+            return false;
+        }
+        for a in sig.inputs.iter() {
+            match a {
+                FnArg::Typed(pt) if matches!(&*pt.pat, Pat::Ident(pi) if pi.by_ref.is_none() && pi.subpat.is_none()) => {}
+                FnArg::Receiver(r) if receiver_ok && r.reference.is_some() => {}
+                _ => return false,
+            }
+        }
+        let mut b = Bad(false);
+        syn::visit::Visit::visit_block(&mut b, block);
+        !b.0
+    }
+    fn eligible(f: &ItemFn) -> bool {
+        struct Bad(bool);
+        impl<'ast> syn::visit::Visit<'ast> for Bad {
+            fn visit_expr_return(&mut self, _: &'ast ExprReturn) {
+                self.0 = true;
+            }
+            fn visit_expr_try(&mut self, _: &'ast ExprTry) {
+                self.0 = true;
+            }
+            fn visit_expr_closure(&mut self, _: &'ast ExprClosure) {}
+        }
+        if f.sig.asyncness.is_some() || f.sig.unsafety.is_some() || !f.sig.generics.params.is_empty() {
+            return false;
+        }
+        for a in f.sig.inputs.iter() {
+            match a {
+                FnArg::Typed(pt) if matches!(&*pt.pat, Pat::Ident(pi) if pi.by_ref.is_none() && pi.subpat.is_none()) => {}
+                _ => return false,
+            }
+        }
+        let mut b = Bad(false);
+        syn::visit::Visit::visit_block(&mut b, &f.block);
+        !b.0
+    }
+    impl<'h> VisitMut for Inl<'h> {
+        fn visit_expr_mut(&mut self, e: &mut Expr) {
+            visit_mut::visit_expr_mut(self, e);
+            // associated helpers: `Self::h(args)` / `T::h(args)` (no receiver) and `self.h(args)` (receiver `self` by reference)
+            let mut assoc_hit: Option<(String, ImplItemFn, Vec<Expr>)> = None;
+            if let (Expr::Call(c), Some(st)) = (&*e, &self.self_ty) {
+                if let Expr::Path(fp) = &*c.func {
+                    if fp.path.segments.len() == 2 {
+                        let (a, b) = (fp.path.segments[0].ident.to_string(), fp.path.segments[1].ident.to_string());
+                        if a == "Self" || a == *st {
+                            if let Some(h) = self.assoc.get(&(st.clone(), b.clone())) {
+                                if h.sig.receiver().is_none() {
+                                    assoc_hit = Some((b, h.clone(), c.args.iter().cloned().collect()));
+                                }
+                            }
+                        }
+                    }
+                }
+            }
+            if let (Expr::MethodCall(m), Some(st)) = (&*e, &self.self_ty) {
+                if matches!(&*m.receiver, Expr::Path(p) if p.path.is_ident("self")) {
+                    if let Some(h) = self.assoc.get(&(st.clone(), m.method.to_string())) {
+                        if h.sig.receiver().is_some() {
+                            assoc_hit = Some((m.method.to_string(), h.clone(), m.args.iter().cloned().collect()));
+                        }
+                    }
+                }
+            }
+            if let Some((name, h, args)) = assoc_hit {
+                let typed: Vec<&FnArg> = h.sig.inputs.iter().filter(|a| matches!(a, FnArg::Typed(_))).collect();
+                if !eligible_sig(&h.sig, &h.block, true) || typed.len() != args.len() || self.depth >= 3 {
+                    return;
+                }
+                let k = self.k;
+                self.k += 1;
+                let mut outer: Vec<TokenStream> = vec![];
+                let mut inner: Vec<TokenStream> = vec![];
+                for (n, (a, arg)) in typed.iter().zip(args.iter()).enumerate() {
+                    let FnArg::Typed(pt) = a else { return };
+                    let tmp = ident(&format!("__h{k}_{n}"));
+                    let pat = &pt.pat;
+                    outer.push(quote!(let #tmp = #arg;));
+                    inner.push(quote!(let #pat = #tmp;));
+                }
+                let stmts = &h.block.stmts;
+                self.notes.push(format!("call of helper method {name} (not in the pinned extraction / not selected) inlined"));
+                let mut ne = parse_expr(quote!({ #(#outer)* { #(#inner)* #(#stmts)* } }));
+                self.depth += 1;
+                self.visit_expr_mut(&mut ne);
+                self.depth -= 1;
+                *e = ne;
+                return;
+            }
+            let Expr::Call(c) = e else { return };
+            let Expr::Path(fp) = &*c.func else { return };
+            let Some(name) = fp.path.get_ident().map(|i| i.to_string()) else { return };
+            let Some(h) = self.helpers.get(&name) else { return };
+            if !eligible(h) || h.sig.inputs.len() != c.args.len() || self.depth >= 3 {
+                return;
+            }
+            let k = self.k;
+            self.k += 1;
+            let mut outer: Vec<TokenStream> = vec![];
+            let mut inner: Vec<TokenStream> = vec![];
+            for (n, (a, arg)) in h.sig.inputs.iter().zip(c.args.iter()).enumerate() {
+                let FnArg::Typed(pt) = a else { return };
+                let tmp = ident(&format!("__h{k}_{n}"));
+                // the flat unit has no module tree: `crate::a::b::T` / `super::T` is `T` there
+                struct Flat;
+                impl VisitMut for Flat {
+                    fn visit_path_mut(&mut self, p: &mut Path) {
+                        visit_mut::visit_path_mut(self, p);
+                        if p.segments.len() > 1 && p.segments.first().map_or(false, |s| s.ident == "crate" || s.ident == "super" || s.ident == "self") {
+                            let last = p.segments.last().unwrap().clone();
+                            p.leading_colon = None;
+                            p.segments = std::iter::once(last).collect();
+                        }
+                    }
+                }
+                let mut ty = (*pt.ty).clone();
+                Flat.visit_type_mut(&mut ty);
+                let pat = &pt.pat;
+                outer.push(quote!(let #tmp: #ty = #arg;));
+                inner.push(quote!(let #pat: #ty = #tmp;));
+            }
+            let stmts = &h.block.stmts;
+            self.notes.push(format!("call of unselected helper fn {name} inlined"));
+            let mut ne = parse_expr(quote!({ #(#outer)* { #(#inner)* #(#stmts)* } }));
+            // helpers of helpers
+            self.depth += 1;
+            self.visit_expr_mut(&mut ne);
+            self.depth -= 1;
+            *e = ne;
+        }
+    }
+    if helpers.is_empty() && assoc.is_empty() {
+        return;
+    }
+    let self_ty = match item {
+        Item::Impl(im) => Some(match &*im.self_ty {
+            Type::Path(tp) => tp.path.segments.last().map(|s| s.ident.to_string()).unwrap_or_default(),
+            other => other.to_token_stream().to_string().replace(' ', ""),
+        }),
+        _ => None,
+    };
+    let mut v = Inl { helpers, assoc, self_ty, notes: vec![], k: 0, depth: 0 };
+    v.visit_item_mut(item);
+    let iname = match item {
+        Item::Fn(f) => f.sig.ident.to_string(),
+        Item::Impl(im) => im.self_ty.to_token_stream().to_string().replace(' ', ""),
+        _ => "?".into(),
+    };
+    for n in v.notes {
+        log.entries.push(("R35".into(), iname.clone(), n));
+    }
+}
+
 pub struct Body<'a> {
     unit: &'a Unit,
     log: &'a mut Log,
